@@ -164,7 +164,9 @@ def check_(case):
     if per_epoch and not any(unfreezable(n) for n in progs.walk(node)):
         orig = fresh(node)
         np.random.seed(9)
-        F = orig.copy(freeze=True)
+        # "freeze" as callers spell it: True, 1, or a numpy bool (freeze = epoch > 0)
+        flag = [True, 1, np.True_][progs.crc(progs.show(node)) % 3]
+        F = orig.copy(freeze=flag)
         e1 = list(F)
         list(orig)  # the original keeps shuffling
         e2 = list(F)
@@ -344,7 +346,7 @@ def check_freeze_propagation():
     }
     for name, mk in stages.items():
         ds = mk()
-        F = ds.copy(freeze=True)
+        F = ds.copy(freeze=[True, np.True_, 1][len(checked) % 3])
         np.random.seed(1)
         e1 = list(F)
         list(ds)
